@@ -31,8 +31,8 @@ ASSUMPTIONS = ['default column names (the function hard-codes cost / date / peri
                'scale decreases on some analysed day (then first-difference bounds must cross); tails=1 with level < 0.5 is the '
                'known-finding key one-sided-level-below-half']
 EXHAUSTIVE = {'quick': False, 'thorough': False}
-MINIMA = {'quick': {'reports_ok': 500, 'dates_checked': 10000, 'outside_period_cases': 80, 'distinct_nontrivial': 500},
-          'thorough': {'reports_ok': 8000, 'dates_checked': 150000, 'outside_period_cases': 1200, 'distinct_nontrivial': 8000}}
+MINIMA = {'quick': {'refits': 120, 'reports_ok': 500, 'dates_checked': 10000, 'outside_period_cases': 80, 'distinct_nontrivial': 500},
+          'thorough': {'refits': 2000, 'reports_ok': 8000, 'dates_checked': 150000, 'outside_period_cases': 1200, 'distinct_nontrivial': 8000}}
 N = {'quick': 1000, 'thorough': 14000}
 
 
@@ -68,7 +68,7 @@ def run_case(spec):
   tails = r.choice([1, 2])
   counters = collections.Counter()
   violations = []
-  desc = {k: exp[k] for k in ('n_pre', 'n_test', 'n_cool', 'n_ctl', 'n_trt', 'shape', 'extras', 'lift')}
+  desc = {k: exp[k] for k in ('n_pre', 'n_test', 'n_cool', 'n_ctl', 'n_trt', 'shape', 'extras', 'lift', 'int_dtype')}
   desc.update(scenario=scenario, metric=metric, level=level, tails=tails)
   fpkey = [scenario, metric, tails, exp['shape'], exp['n_pre'], exp['n_test'], exp['n_cool'], sorted(extras), level]
 
@@ -83,6 +83,10 @@ def run_case(spec):
   if outside:
     counters['outside_period_cases'] += 1
   model = mod.TBRiROAS(use_cooldown=True)
+  if r.random() < 0.3:
+    decoy = gen.gen_experiment(r, g, cost_mode=r.choice(['fixed', 'variable']), shape='iid')
+    util.call(lambda: (model.fit(decoy['frame']), model.estimate_pointwise_and_cumulative_effect(metric, 0.9, 2)))
+    counters['refits'] += 1
   fit = util.call(model.fit, frame)
   if not fit.ok:
     add('fit', 'iroas-fit-raises:' + fit.exc_type, fit.describe())
